@@ -253,6 +253,31 @@ def run_case(fr, rec, second=False):
                           observed=gv_, expected=repr(e)[:600])
             return
     rec.count('accepted_ok')
+    if not second and b'D' in (fr.tags or ()):
+        # a decimal field decodes to the value its bytes denote whatever
+        # decimal context the receiving thread runs under (narrow precision,
+        # other rounding, every trap enabled)
+        import decimal as _dm
+        for ctx in common.narrow_contexts():
+            with _dm.localcontext(ctx):
+                u2 = common.lib_unmarshal(data)
+            g2 = u2.value[2] if u2.ok else None
+            got2 = None
+            if g2 is not None and kind == 'method':
+                got2 = boundary.method_values(g2, spec)
+            elif g2 is not None and kind == 'header':
+                got2 = boundary.props_values(g2.properties)
+            if got2 is None or any(not weq(e, got2.get(n, boundary.Missing))
+                                   for n, e in exp.items()):
+                rec.violation('decoding-depends-on-decimal-context',
+                              'well-formed %s %s carrying a decimal field '
+                              'decodes differently (%s) under decimal '
+                              'context %r' % (fr.kind, fr.name or '',
+                                              u2.describe() if not u2.ok
+                                              else 'other values', ctx),
+                              case)
+                return
+        rec.count('decimal_frames_decoded_under_contexts')
     if second and kind in ('method', 'header') and \
             rec.counters['accepted_ok'] % 3 == 0:
         if kind == 'method':
